@@ -108,7 +108,7 @@ PROPS = {
         "rule": "1..3 connections x 1..8 writes (sizes 0..256 KiB, raw or file buffers, issued from the event-loop thread or an application thread) "
                 "against per-connection socket buffers/segment sizes/latencies and reader pacing drawn per run; short writes, would-block, spurious "
                 "EAGAIN, EINTR and per-call caps injected by the simulated kernel; " + NONTRIVIAL,
-        "probes_expected": ["eagain-branch", "short-write", "write-from-foreign-thread", "file-buffer", "file-buffer-with-would-block",
+        "probes_expected": ["many-small-writes-on-one-connection", "bulk-input-without-write-while-writes-pending", "eagain-branch", "short-write", "write-from-foreign-thread", "file-buffer", "file-buffer-with-would-block",
                             "input-without-write-while-writes-pending", "http-size", "http-async", "http-file", "http-stream", "http-astream"],
         "assumptions": ["liveness is judged 20 simulated seconds beyond three times what the reader's own pace needs"],
         "quick": {"batches": [("c06_writes", "plain", 8000), ("c06_small", "plain", 10000), ("c06_http", "plain", 8000), ("c06_small", "tsan", 3000), ("c06_http", "tsan", 800), ("c06_small", "tsanat", 3000)], "chunk": 100},
